@@ -13,6 +13,35 @@ import (
 
 func init() {
 	extras["queue-stress"] = queueStress
+	extras["pipe-stress"] = pipeStress
+}
+
+// pipe-stress: free-running Fork / Split / Join pipelines.
+func pipeStress(args []string) {
+	var fs = flag.NewFlagSet("pipe-stress", flag.ExitOnError)
+	var out = fs.String("out", "", "result file (ndjson)")
+	var n = fs.Int("n", 100, "runs")
+	var seed = fs.Int64("seed", 1, "seed")
+	var deadline = fs.Duration("deadline", 5*time.Second, "per-run deadline")
+	fs.Parse(args)
+	var f, _ = os.Create(*out)
+	var w = bufio.NewWriter(f)
+	var notDone = 0
+	for i := 0; i < *n; i++ {
+		var r = qstress.Pipeline(i, *seed*104729+int64(i), *deadline)
+		if !r.Done {
+			notDone++
+		}
+		var b, _ = json.Marshal(r)
+		w.Write(b)
+		w.WriteByte('\n')
+		if notDone > 4 {
+			break
+		}
+	}
+	w.Flush()
+	f.Close()
+	fmt.Printf("DONE runs=%d notdone=%d\n", *n, notDone)
 }
 
 // queue-stress: free-running well-formed producer/consumer programs.
